@@ -85,21 +85,21 @@ section
 variable (c0 t0 : Nat)
 
 /-- the callee has ended (or the run is out of fuel) -/
-def Gone (s : State) : Prop := ¬ LiveVM s t0 ∨ s.outOfFuel = true
+def Ended (s : State) : Prop := ¬ LiveVM s t0 ∨ s.outOfFuel = true
 
 structure WR0 (s s' : State) : Prop where
   prog : s'.prog = s.prog
   nt : s.nextTid ≤ s'.nextTid
   lv : LiveVM s' t0 → LiveVM s t0
   oof : s.outOfFuel = true → s'.outOfFuel = true
-  core : c0 ∈ Tbl.getD s.notify (t0, 0) → c0 ∈ Tbl.getD s'.notify (t0, 0) ∨ Gone t0 s'
+  core : c0 ∈ Tbl.getD s.notify (t0, 0) → c0 ∈ Tbl.getD s'.notify (t0, 0) ∨ Ended t0 s'
 
 def WR (s s' : State) : Prop := WTSafe s.prog → t0 < s.nextTid → WR0 c0 t0 s s'
 end
 
 variable {c0 t0 : Nat}
 
-theorem WR0.gone {a b : State} (r : WR0 c0 t0 a b) (g : Gone t0 a) : Gone t0 b := by
+theorem WR0.gone {a b : State} (r : WR0 c0 t0 a b) (g : Ended t0 a) : Ended t0 b := by
   rcases g with g | g
   · exact Or.inl (fun l => g (r.lv l))
   · exact Or.inr (r.oof g)
@@ -121,7 +121,7 @@ theorem WR.trans {a b c : State} (h1 : WR c0 t0 a b) (h2 : WR c0 t0 b c) : WR c0
 /-- a step that keeps threads, `nextTid`, program, fuel flag; the notify table may change as long as `c0` stays -/
 theorem WR.step {s s' : State} (h1 : s'.threads = s.threads) (h2 : s'.nextTid = s.nextTid) (h3 : s'.prog = s.prog)
     (h5 : s'.outOfFuel = s.outOfFuel)
-    (hn : c0 ∈ Tbl.getD s.notify (t0, 0) → c0 ∈ Tbl.getD s'.notify (t0, 0) ∨ Gone t0 s') : WR c0 t0 s s' := fun _ _ =>
+    (hn : c0 ∈ Tbl.getD s.notify (t0, 0) → c0 ∈ Tbl.getD s'.notify (t0, 0) ∨ Ended t0 s') : WR c0 t0 s s' := fun _ _ =>
   ⟨h3, by rw [h2]; exact Nat.le_refl _, fun l => l.congr h1, fun h => by rw [h5]; exact h, hn⟩
 
 theorem WR.of_eq {s s' : State} (h1 : s'.threads = s.threads) (h2 : s'.nextTid = s.nextTid) (h3 : s'.prog = s.prog)
@@ -224,11 +224,11 @@ theorem notifyLoop_wr {sn : State → Nat → State} (hsn : WR1 c0 t0 sn) (s : S
   · exact WR.refl s
 
 /-- `StoppedNotify` on the callee ends it -/
-def SnE (t0 : Nat) (sn : State → Nat → State) : Prop := ∀ s, WTSafe s.prog → t0 < s.nextTid → Gone t0 (sn s t0)
+def SnE (t0 : Nat) (sn : State → Nat → State) : Prop := ∀ s, WTSafe s.prog → t0 < s.nextTid → Ended t0 (sn s t0)
 
 theorem notifyFold_gone {sn : State → Nat → State} (hsn : WR1 c0 t0 sn) (hsnE : SnE t0 sn) (ht0 : 100 ≤ t0) :
     ∀ (L : List Nat) (s : State), WTSafe s.prog → t0 < s.nextTid → t0 ∈ L →
-      Gone t0 (L.foldl (fun s src => if s.alive src then sn s src else s) s)
+      Ended t0 (L.foldl (fun s src => if s.alive src then sn s src else s) s)
   | [], _, _, _, h => by cases h
   | a :: L, s, hp, hlt, h => by
     simp only [List.foldl_cons]
@@ -238,7 +238,7 @@ theorem notifyFold_gone {sn : State → Nat → State} (hsn : WR1 c0 t0 sn) (hsn
       · exact WR.refl s
     have r := hstep hp hlt
     by_cases ha : a = t0
-    · have g : Gone t0 (if s.alive a then sn s a else s) := by
+    · have g : Ended t0 (if s.alive a then sn s a else s) := by
         rw [ha]
         split
         · exact hsnE s hp hlt
@@ -382,7 +382,7 @@ theorem wakeLoop_wr {swf : State → Nat → Nat → Bool → State} (h : WR3 c0
 
 theorem unregNotify_wr {swf : State → Nat → Nat → Bool → State} {sn : State → Nat → State}
     (hswf : WR3 c0 t0 swf) (hsn : WR1 c0 t0 sn) (s : State) (src name : Nat)
-    (hpre : src = t0 ∧ name = 0 → Gone t0 s) :
+    (hpre : src = t0 ∧ name = 0 → Ended t0 s) :
     WR c0 t0 s (unregNotify swf sn s src name) := by
   unfold unregNotify
   split
@@ -393,7 +393,7 @@ theorem unregNotify_wr {swf : State → Nat → Nat → Bool → State} {sn : St
       refine WR.trans ?_ (wakeLoop_wr hswf _ _ _)
       have hk : ∀ T : Tbl, c0 ∈ Tbl.getD s.notify (t0, 0) →
           c0 ∈ Tbl.getD (Tbl.removeKey s.notify (src, name)) (t0, 0) ∨
-            Gone t0 { s with notify := Tbl.removeKey s.notify (src, name), waitFor := T } := by
+            Ended t0 { s with notify := Tbl.removeKey s.notify (src, name), waitFor := T } := by
         intro T hc
         rw [Tbl.getD_removeKey]
         by_cases hkk : (t0, 0) = (src, name)
@@ -416,7 +416,7 @@ theorem killLoop_wr {swf : State → Nat → Nat → Bool → State} (h : WR3 c0
   · exact WR.refl s
 
 theorem uaRest_wr {swf : State → Nat → Nat → Bool → State} {sn : State → Nat → State}
-    (hswf : WR3 c0 t0 swf) (hsn : WR1 c0 t0 sn) (s : State) (src : Nat) (hpre : src = t0 → Gone t0 s) :
+    (hswf : WR3 c0 t0 swf) (hsn : WR1 c0 t0 sn) (s : State) (src : Nat) (hpre : src = t0 → Ended t0 s) :
     WR c0 t0 s (uaRest swf sn s src) := by
   unfold uaRest
   split
@@ -504,8 +504,8 @@ structure WRAll (c0 t0 : Nat) (fuel : Nat) : Prop where
   stp : WR1 c0 t0 (stop fuel)
   cwa : WR1 c0 t0 (cancelWaitingAll fuel)
   swf : WR3 c0 t0 (stoppedWaitFor fuel)
-  ur : ∀ s src name, (src = t0 ∧ name = 0 → Gone t0 s) → WR c0 t0 s (unregister fuel s src name)
-  ua : ∀ s src, (src = t0 → Gone t0 s) → WR c0 t0 s (unregisterAll fuel s src)
+  ur : ∀ s src name, (src = t0 ∧ name = 0 → Ended t0 s) → WR c0 t0 s (unregister fuel s src name)
+  ua : ∀ s src, (src = t0 → Ended t0 s) → WR c0 t0 s (unregisterAll fuel s src)
   sei : WR1 c0 t0 (scriptExecuteInternal fuel)
   er : WRz c0 t0 (executeRunning fuel)
   dr : WRz c0 t0 (drain fuel)
@@ -614,8 +614,8 @@ theorem exec_wr_succ {fuel : Nat} (ih : WRAll c0 t0 fuel) (ht0 : 100 ≤ t0) (s 
     · exact WR.refl s
     · exact WR.of_eq rfl rfl rfl rfl rfl
 
-theorem WR.trans_gone {a b c : State} {P : Prop} (hpre : P → Gone t0 a) (h1 : WR c0 t0 a b)
-    (h2 : (P → Gone t0 b) → WR c0 t0 b c) : WR c0 t0 a c := fun hp hlt =>
+theorem WR.trans_gone {a b c : State} {P : Prop} (hpre : P → Ended t0 a) (h1 : WR c0 t0 a b)
+    (h2 : (P → Ended t0 b) → WR c0 t0 b c) : WR c0 t0 a c := fun hp hlt =>
   (WR.trans h1 (h2 (fun p => (h1 hp hlt).gone (hpre p)))) hp hlt
 
 theorem not_live_setTh_noVM (s : State) (t : Nat) :
@@ -645,7 +645,7 @@ theorem deleteChain_wr {fuel : Nat} (ih : WRAll c0 t0 fuel) (s : State) (t : Nat
           (cancelEvents (notifyDelete (stopStep (cancelWaitingAll fuel)
             (s.setTh t (fun th => { th with hasVM := false })) t th) t) t)
           t nameDelete) t nameRemove) t) t) t) := by
-  have g0 : t = t0 → Gone t0 (s.setTh t (fun th => { th with hasVM := false })) := by
+  have g0 : t = t0 → Ended t0 (s.setTh t (fun th => { th with hasVM := false })) := by
     intro h; subst h; exact Or.inl (not_live_setTh_noVM s t)
   have l1 := ((stopStep_wr (c0 := c0) (t0 := t0) ih.cwa (s.setTh t (fun th => { th with hasVM := false })) t th).trans
     (notifyDelete_wr _ t)).trans (cancelEvents_wr _ t)
